@@ -336,3 +336,44 @@ func sortedKeys[V any](m map[string]V) []string {
 	sort.Strings(ks)
 	return ks
 }
+
+// WithPath runs f as the case identified by an explicit choice path inside space (used by
+// explicit-state searches, whose cases are histories rather than odometer positions). In
+// replay mode f runs only for the recorded path.
+func (w *Worker) WithPath(space string, path []int, f func()) {
+	if w.replay != nil {
+		if w.replay.Space != space || !sameInts(w.replay.Outer, path) {
+			return
+		}
+	}
+	w.curSpace = space
+	w.curOuter = NewReplay(path, 0)
+	w.curInner = nil
+	f()
+	w.curOuter = nil
+}
+
+// ReplayPath returns the recorded path when replaying a case of the given space.
+func (w *Worker) ReplayPath(space string) ([]int, bool) {
+	if w.replay != nil && w.replay.Space == space {
+		return w.replay.Outer, true
+	}
+	return nil, false
+}
+
+func (w *Worker) AddStates(states, transitions int64) {
+	w.Rep.States += states
+	w.Rep.Transitions += transitions
+}
+
+func sameInts(a, b []int) bool {
+	if len(a) != len(b) {
+		return false
+	}
+	for i := range a {
+		if a[i] != b[i] {
+			return false
+		}
+	}
+	return true
+}
